@@ -679,8 +679,8 @@ def run(ctx, prog):
             if m_ and bcl is not None and bcl.id.endswith('::' + m_.group(1)):
                 n_, bad, seen = conjunction_with_type(bcl, [pathsens.Atom('timestamp ≤ target', intime)], 'Full')
                 ok_base = bool(n_) and not bad and 'timestamp ≤ target' in seen
-                fbo = '%s [%d paths; %s]' % (fbo[:90], n_, '; '.join(sorted(set(bad))) or 'exact')
-        ctx.inst('C12.R7', pit.short, 'base = first Full with timestamp ≤ target in list order', ok_base, 'full_backup = %s' % fbo[:160])
+                fbo = '%s [%d paths; %s]' % (fbo[:60], n_, ('; '.join(sorted(set(bad))) or 'exact')[:50])
+        ctx.inst('C12.R7', pit.short, 'base = first Full with timestamp ≤ target in list order', ok_base, 'full_backup = %s' % fbo[:120])
     # ------------------------------------------------------------------ R8 restore by id follows the requested backup's own ancestry
     ctx.rule('C12.R8', 'restore-by-id restores the requested backup\'s OWN chain: starting from the requested metadata, each further element is the backup named by the '
                        'previous element\'s parent_id (loop on parent_id = Some, decode of that file, push), the walk ends at a Full or refuses, the chain is reversed '
